@@ -235,10 +235,11 @@ CHECKS = {
                         "and is known finding P2; the set is proved exact relative to the snapshot (c08_descriptor_exact_at_snapshot)"],
     },
     "C18": {
-        "modules": ["p_c18", "p_c18m", "p_c18p", "p_c18r"],
+        "modules": ["p_c18", "p_c18m", "p_c18p", "p_c18r", "p_c18c", "p_c18t"],
         "extra_props": ["Props/Comb_F.v", "Props/C06_machine.v"],
         "gen_lemmas": [],
-        "rule": "p_c18m / p_c18p / p_c18r: the lockstep scenario families of C02+C13 (raising fn / error_fn / done-callbacks, several callbacks "
+        "rule": "p_c18c / p_c18t: the lockstep families of C06 (retry: cancel() racing with the submit thread) and C07 (throttle: raising / changing count "
+                "callables, blocking submit) with their fault verdicts (thread died, submit() or cancel() raised); p_c18m / p_c18p / p_c18r: the lockstep scenario families of C02+C13 (raising fn / error_fn / done-callbacks, several callbacks "
                 "per future), C08 (raising poll and cancel functions, concurrent cancels) and C05 (raising policy methods and callables) replayed "
                 "on Model/MapFut.v, Model/Poll.v, Model/Retry.v - a dying thread or an escaping exception is an event those machines reject - "
                 "with the fault-related verdicts of their monitors; p_c18: seeded scenarios on real stacks: depth 1-4 over the seven layer kinds, base sync or the real ThreadPoolExecutor; each of the "
